@@ -43,7 +43,7 @@ func (*int64Scalar) CoerceIn(v interface{}) (interface{}, error) {
 	case int64:
 		// ok as is
 	case int32:
-		v = tv
+		v = int64(tv)
 	case string:
 		var i int64
 		if i, err = strconv.ParseInt(tv, 10, 64); err == nil {
